@@ -103,31 +103,40 @@ func (c *MJBodyComponent) Render(w io.StringWriter) error {
 		c.RenderOpts.PendingMSOSectionClose = false
 	}
 
-	// Track how many Outlook-sensitive blocks remain (mj-section and mj-wrapper)
-	// so conditional comments can be chained correctly across mixed content.
-	remainingBlocks := 0
-	for _, child := range c.Children {
-		switch child.(type) {
-		case *MJSectionComponent, *MJWrapperComponent:
-			remainingBlocks++
+	// A section may leave its closing Outlook conditional open only when the block that
+	// directly follows continues that comment (a section or wrapper that is not full-width).
+	// Anything else (hero, raw content, full-width blocks, the end of the body) starts outside
+	// the comment, so the section has to close it.
+	continuesMSOComment := func(i int) int {
+		if i+1 >= len(c.Children) {
+			return 0
 		}
+		switch next := c.Children[i+1].(type) {
+		case *MJSectionComponent:
+			if next.GetAttributeWithDefault(next, "full-width") == "" {
+				return 1
+			}
+		case *MJWrapperComponent:
+			if !next.isFullWidth() {
+				return 1
+			}
+		}
+		return 0
 	}
 
-	for _, child := range c.Children {
+	for i, child := range c.Children {
 		switch comp := child.(type) {
 		case *MJSectionComponent:
-			remainingBlocks--
 			if c.RenderOpts != nil {
-				c.RenderOpts.RemainingBodySections = remainingBlocks
+				c.RenderOpts.RemainingBodySections = continuesMSOComment(i)
 			}
 			if err := comp.Render(w); err != nil {
 				return err
 			}
 			continue
 		case *MJWrapperComponent:
-			remainingBlocks--
 			if c.RenderOpts != nil {
-				c.RenderOpts.RemainingBodySections = remainingBlocks
+				c.RenderOpts.RemainingBodySections = continuesMSOComment(i)
 			}
 			if err := comp.Render(w); err != nil {
 				return err
